@@ -231,6 +231,19 @@ func C12(p *ir.Program, r *report.R) {
 			c.Guards("merkle.computeHashFromAunts", "combine", call,
 				G{"index<total", "lt(index,total)"}, G{"index>=0", "le(0,index)"}, G{"total>0", "lt(0,total)"})
 		}
+		// the trail is exactly as long as the path: a level is combined only while aunts are left, and the
+		// leaf is returned only when none is left (a trail that is too SHORT would let the preimage of an
+		// inner node pass as a leaf)
+		for _, call := range ir.Calls(cf, "merkle.SimpleHashFromTwoHashes") {
+			c.Guards("merkle.computeHashFromAunts", "combine", call, G{"aunts-left", "!eq(len(innerHashes),0)"})
+		}
+		nLeaf := 0
+		for _, rt := range ir.Returns(cf) {
+			if ir.Render(rt.Results[0]) == "leafHash" {
+				nLeaf++
+			}
+		}
+		c.MustFind("K1", "merkle.computeHashFromAunts/return leaf", cf, nLeaf, "return of the leaf hash itself (total == 1, no aunts left)")
 		for _, rt := range ir.Returns(cf) {
 			if ir.Render(rt.Results[0]) == "leafHash" {
 				c.Guards("merkle.computeHashFromAunts", "return leaf", rt.Instr,
